@@ -80,6 +80,10 @@ type c13Blk struct {
 	TxCodes    []uint32
 	AppHash    string
 	WTxs       []c13WTx // WITHDRAW_REWARD transactions of the block, with the records around them
+	// sum of the deltas of ALL delegRwz_balance_* records in BeginBlock (also of addresses that are
+	// not in the active table): what the delegators were really credited
+	ObDelegTotal string
+	CheckOnly    []string // transactions only CheckTx'ed at the end of the block (descriptions)
 }
 
 // one WITHDRAW_REWARD transaction on the real app: amount field as sent (whole OLT), the validator's
@@ -364,23 +368,40 @@ func c13GenOpts(r *rand.Rand) c13Opts {
 	return o
 }
 
-func c13RunChain(seed int64, idx int, nblocks int) c13Chain {
+// network delegation amounts are given in base units: whole OLT need 18 more digits
+const c13E18 = "000000000000000000"
+
+func c13RunChain(seed int64, idx int, nblocks int) c13Chain { return c13RunChainS(seed, idx, nblocks, 0) }
+
+// scenario 0: generated history.  Directed witnesses (corpus/C13.json "directed_chains"):
+// scenario 1: delegate 1000 OLT (height 3), undelegate 900 OLT (height 4, the last delegation-store
+//             transaction before the following BeginBlocks), then empty blocks;
+// scenario 2: delegate 1000 OLT (height 3); at height 4 an undelegate of 900 OLT is only CheckTx'ed.
+func c13RunChainS(seed int64, idx int, nblocks int, scenario int) c13Chain {
 	r := rand.New(rand.NewSource(seed*1000003 + int64(idx)))
 	ch := c13Chain{Index: idx}
 	o := c13GenOpts(r)
-	if c13Honest {
+	if c13Honest || scenario > 0 {
 		o = c13Opts{Cycle: 100, Est: 1728, Window: 86400, Interval: []int64{5, 150}[r.Intn(2)], Burnout: "5000000000000000000",
 			Shares: []string{"70000000000000000000000000", "70000000000000000000000000", "40000000000000000000000000", "40000000000000000000000000", "30000000000000000000000000"}}
 	}
 	ch.Opts = o
 	ro := c13RewardOptions(o)
 	nv := 1 + r.Intn(8)
+	if scenario > 0 {
+		nv = 2
+	}
 	w := NewWorld(nv, 4, 2)
 	powMode := r.Intn(3)
+	if scenario > 0 {
+		powMode = 3
+	}
 	for i := range w.Vals {
 		switch powMode {
 		case 0:
 			w.Vals[i].Power = 1000000
+		case 3:
+			w.Vals[i].Power = 1000
 		case 1:
 			w.Vals[i].Power = int64(1000 + r.Intn(5000000))
 		default:
@@ -394,7 +415,14 @@ func c13RunChain(seed int64, idx int, nblocks int) c13Chain {
 	if c13Honest {
 		dtMode, rewardPoolAmt = 9, "1000000000000000000000000"
 	}
-	ch.Descr = fmt.Sprintf("vals=%d powMode=%d delegMode=%d dtMode=%d rewardPool=%s", nv, powMode, delegMode, dtMode, rewardPoolAmt)
+	// chains with network-delegation traffic: large delegations, large undelegations as the last
+	// delegation-store transaction of a block, undelegations that are only CheckTx'ed
+	delegTraffic := r.Intn(2) == 0
+	if scenario > 0 {
+		delegMode, dtMode, rewardPoolAmt, delegTraffic = 0, 0, "1000000000000000000000000", false
+	}
+	activeOLT := map[int]int64{} // user -> OLT delegated by delivered transactions of this run
+	ch.Descr = fmt.Sprintf("scenario=%d delegTraffic=%v ", scenario, delegTraffic) + fmt.Sprintf("vals=%d powMode=%d delegMode=%d dtMode=%d rewardPool=%s", nv, powMode, delegMode, dtMode, rewardPoolAmt)
 	g.Customize = func(st *consensus.AppState) {
 		st.Governance.RewardOptions = *ro
 		st.Governance.StakingOptions.TopValidatorCount = 8
@@ -444,7 +472,7 @@ func c13RunChain(seed int64, idx int, nblocks int) c13Chain {
 		t = t.Add(c13PickDT(r, dtMode))
 		times[h] = t
 		blk := c13Blk{H: h}
-		if b > 0 && r.Intn(9) == 0 {
+		if scenario == 0 && b > 0 && r.Intn(9) == 0 {
 			c13Restart(rep) // process restart from the on-disk data (block boundary)
 			shadow = c13NewSide(ro, rep.BS)
 			blk.Restart = true
@@ -474,7 +502,15 @@ func c13RunChain(seed int64, idx int, nblocks int) c13Chain {
 		}
 		// transactions of this block
 		wmeta := map[int][2]string{} // tx index -> (validator address, amount) of WITHDRAW_REWARD transactions
+		dmeta := map[int][2]int64{}  // tx index -> (user, signed OLT) of the large delegate/undelegate transactions
+		var checkOnly [][]byte       // transactions that are only CheckTx'ed at the end of the block
 		ntx := r.Intn(3)
+		if scenario > 0 {
+			ntx = 0
+			for i := range in.Absent {
+				delete(in.Absent, i)
+			}
+		}
 		for i := 0; i < ntx; i++ {
 			switch r.Intn(7) {
 			case 0, 1:
@@ -504,7 +540,42 @@ func c13RunChain(seed int64, idx int, nblocks int) c13Chain {
 				wmeta[len(in.Txs)-1] = [2]string{v.Val.Addr.String(), a}
 			}
 		}
-		if b >= 7 && b-7 < len(c13CorpusWValues) {
+		switch {
+		case scenario > 0 && b == 2:
+			in.Txs = append(in.Txs, txDelegate(w.Users[0], oltAmt("1000"+c13E18), memo()))
+			blk.Txs = append(blk.Txs, "delegate 1000")
+			dmeta[len(in.Txs)-1] = [2]int64{0, 1000}
+		case scenario == 1 && b == 3:
+			in.Txs = append(in.Txs, txUndelegate(w.Users[0], oltAmt("900"+c13E18), memo()))
+			blk.Txs = append(blk.Txs, "undelegate 900")
+			dmeta[len(in.Txs)-1] = [2]int64{0, -900}
+		case scenario == 2 && b == 3:
+			checkOnly = append(checkOnly, txUndelegate(w.Users[0], oltAmt("900"+c13E18), memo()))
+			blk.CheckOnly = append(blk.CheckOnly, "checkonly-undelegate 900")
+		}
+		if delegTraffic {
+			u := r.Intn(len(w.Users))
+			switch r.Intn(6) {
+			case 0, 1:
+				a := []int64{1000, 250000, 40}[r.Intn(3)]
+				in.Txs = append(in.Txs, txDelegate(w.Users[u], oltAmt(strconv.FormatInt(a, 10)+c13E18), memo()))
+				blk.Txs = append(blk.Txs, fmt.Sprintf("delegate %d", a))
+				dmeta[len(in.Txs)-1] = [2]int64{int64(u), a}
+			case 2, 3:
+				if activeOLT[u] >= 10 { // most of what the user has, as the LAST delegation-store transaction
+					a := activeOLT[u] * int64(5+r.Intn(5)) / 10
+					in.Txs = append(in.Txs, txUndelegate(w.Users[u], oltAmt(strconv.FormatInt(a, 10)+c13E18), memo()))
+					blk.Txs = append(blk.Txs, fmt.Sprintf("undelegate %d", a))
+					dmeta[len(in.Txs)-1] = [2]int64{int64(u), -a}
+				}
+			case 4:
+				if activeOLT[u] >= 10 {
+					checkOnly = append(checkOnly, txUndelegate(w.Users[u], oltAmt(strconv.FormatInt(activeOLT[u]*9/10, 10)+c13E18), memo()))
+					blk.CheckOnly = append(blk.CheckOnly, fmt.Sprintf("checkonly-undelegate %d", activeOLT[u]*9/10))
+				}
+			}
+		}
+		if scenario == 0 && b >= 7 && b-7 < len(c13CorpusWValues) {
 			v := w.Vals[0]
 			a := c13CorpusWValues[b-7]
 			in.Txs = append(in.Txs, txWithdrawReward(v, oltAmt(a), memo()))
@@ -574,6 +645,16 @@ func c13RunChain(seed int64, idx int, nblocks int) c13Chain {
 				blk.ObDelegs = append(blk.ObDelegs, c13Sub(c13Amt(post, bk), c13Amt(pre, bk)))
 			}
 		}
+		blk.ObDelegTotal = "0"
+		seenBal := map[string]bool{}
+		for _, view := range []map[string]string{pre, post} {
+			for k := range view {
+				if strings.HasPrefix(k, "delegRwz_balance_") && !seenBal[k] {
+					seenBal[k] = true
+					blk.ObDelegTotal = new(big.Int).Add(c13Big(blk.ObDelegTotal), c13Big(c13Sub(c13Amt(post, k), c13Amt(pre, k)))).String()
+				}
+			}
+		}
 		for _, k := range sortedKeys(post) {
 			if strings.HasPrefix(k, "rwaddr_") {
 				a := strings.TrimPrefix(k, "rwaddr_")
@@ -609,6 +690,12 @@ func c13RunChain(seed int64, idx int, nblocks int) c13Chain {
 				wt.Bal2, wt.Wd2 = c13Amt(av, "rwcum_balance_"+wm[0]), c13Amt(av, "rwcum_withdrawn_"+wm[0])
 				blk.WTxs = append(blk.WTxs, wt)
 			}
+			if dm, ok := dmeta[i]; ok && res.Code == 0 {
+				activeOLT[int(dm[0])] += dm[1]
+			}
+		}
+		for _, tx := range checkOnly {
+			rep.CheckTx(tx) // mempool traffic that never makes it into a block
 		}
 		rep.EndBlock()
 		blk.AppHash = rep.Commit()
@@ -825,14 +912,14 @@ func c13CoqBlk(b c13Blk) string {
 		ws = append(ws, fmt.Sprintf("mkWtx %s %s %s %s %s %s %s %s", c13Z(w.Value), c13Z(w.Bal), c13Z(w.Wd), c13Z(w.Pool),
 			c13B(w.CheckOk), c13B(w.DeliverOk), c13Z(w.Bal2), c13Z(w.Wd2)))
 	}
-	return fmt.Sprintf("mkBlk %d %s %s %s %s\n   %s %s\n   %s %s %s %d\n   %s\n   %s %s %s %s\n   %s %s\n   %s %s %s\n   %s",
+	return fmt.Sprintf("mkBlk %d %s %s %s %s\n   %s %s\n   %s %s %s %d\n   %s\n   %s %s %s %s\n   %s %s\n   %s %s %s\n   %s %s",
 		b.H, c13B(b.Restart), c13ZI(b.T1), c13ZI(b.Tb), c13ZI(b.Te),
 		c13List(ys), c13Z(b.Pool),
 		c13List(vs), c13Z(b.Dp), c13List(ds), b.Prop,
 		c13ZList(b.MaturedIn),
 		c13B(b.PullOk), c13Z(b.Pull), c13B(b.ColdOk), c13Z(b.Cold),
 		c13List(oy), c13Z(b.ObConsumed),
-		c13ZList(b.ObVals), c13ZList(b.ObDelegs), c13ZList(b.ObMatured), c13List(ws))
+		c13ZList(b.ObVals), c13ZList(b.ObDelegs), c13ZList(b.ObMatured), c13List(ws), c13Z(b.ObDelegTotal))
 }
 
 func c13CoqChain(c c13Chain) string {
@@ -907,6 +994,7 @@ func c13Main(args []string) int {
 	fs.BoolVar(&c13Honest, "honest", false, "whole-app chains with the devnet reward options and ordinary block times")
 	replayP := fs.String("replay-pcases", "", "JSON file with a list of calculator runs (inputs) to execute first")
 	corpusW := fs.String("corpus-wvalues", "", "comma separated WITHDRAW_REWARD amounts injected into blocks 8.. of every chain")
+	directed := fs.Bool("directed", false, "run the directed whole-app witnesses (delegate 1000 / undelegate 900) first")
 	probe := fs.Bool("probe-negwd", false, "probe: WITHDRAW_REWARD with a negative amount on the real app")
 	fs.Parse(args)
 	if *corpusW != "" {
@@ -919,6 +1007,11 @@ func c13Main(args []string) int {
 
 	rep := c13Report{Hist: map[string]int{}}
 	chains := []c13Chain{}
+	if *directed {
+		for sc := 1; sc <= 2; sc++ {
+			chains = append(chains, c13RunChainS(*seed, -sc, 11, sc))
+		}
+	}
 	for i := 0; i < *nchains; i++ {
 		func() {
 			// a panic of the real application inside a whole-app run (BeginBlock recovers it and
@@ -1012,6 +1105,12 @@ func c13Main(args []string) int {
 			}
 			if nz {
 				inc("chain.matured>0")
+			}
+			for _, d := range b.CheckOnly {
+				inc("chain.tx." + strings.Fields(d)[0])
+			}
+			if b.ObDelegTotal != "0" {
+				inc("chain.delegators_credited")
 			}
 			for _, w := range b.WTxs {
 				k := "in_range"
